@@ -1,5 +1,5 @@
 from concurrent.futures import Executor
-from threading import Thread, Lock
+from threading import Thread, Lock, Condition
 from collections import namedtuple, deque
 from functools import partial
 import logging
@@ -112,6 +112,9 @@ class ThrottleExecutor(CanCustomizeBind, Executor):
         self._delegate = delegate
         self._to_submit = deque()
         self._lock = Lock()
+        # Notified (with _lock held) whenever _to_submit shrinks, for the benefit
+        # of submitters blocked in _block_until_ready.
+        self._room = Condition(self._lock)
         self._event = get_event()
         self._running_count = AtomicInt()
         self._throttle = count if callable(count) else lambda: count
@@ -151,15 +154,27 @@ class ThrottleExecutor(CanCustomizeBind, Executor):
             metrics.EXEC_INPROGRESS.labels(type="throttle", executor=self._name).dec()
             self._delegate.shutdown(wait, **_kwargs)
             self._event.set()
+            with self._room:
+                self._room.notify_all()
             if wait:
                 self._thread.join(MAX_TIMEOUT)
 
     def _block_until_ready(self, throttle_val):
-        while self._block and not self._shutdown.is_shutdown:
-            if throttle_val is None or len(self._to_submit) < throttle_val:
-                return
-            self._log.debug("%s: throttling on submit", self._name)
-            self._event.wait(30.0)
+        if not self._block:
+            return
+        # The check for room and the wait must be atomic with respect to whoever
+        # shrinks the queue, hence a condition on the queue's own lock rather than
+        # the hand-over thread's event (which that thread clears at its own pace:
+        # a submitter could find the queue full, the thread then clear the event and
+        # drain the queue, and the submitter sleep on for the whole 30 seconds).
+        with self._room:
+            while (
+                throttle_val is not None
+                and len(self._to_submit) >= throttle_val
+                and not self._shutdown.is_shutdown
+            ):
+                self._log.debug("%s: throttling on submit", self._name)
+                self._room.wait(30.0)
 
     def _eval_throttle(self):
         try:
@@ -188,6 +203,7 @@ class ThrottleExecutor(CanCustomizeBind, Executor):
                 if job.future is future:
                     self._to_submit.remove(job)
                     metrics.THROTTLE_QUEUE.labels(executor=self._name).dec()
+                    self._room.notify_all()
                     self._log.debug("Cancelled %s", job)
                     return True
         self._log.debug("Could not find for cancel: %s", future)
@@ -223,6 +239,10 @@ def _submit_loop_iter(executor):
             # While not actually running yet, we've committed to running it, so...
             executor._running_count.incr()
             metrics.THROTTLE_QUEUE.labels(executor=executor._name).dec()
+
+        if to_submit:
+            # Made room in the queue: release any blocked submitters
+            executor._room.notify_all()
 
         executor._log.debug(
             "Submitting %s, throttling %s", len(to_submit), len(executor._to_submit)
